@@ -1573,10 +1573,10 @@ fn gen_negzero_points(r: &mut Rng, n: usize, d: usize, odd: bool) -> Vec<f64> {
 /// distinct as f64, equal after `as f32`; and coordinates near the end of the f32 range.
 /// The contract ("finite coordinates") is about the values the algorithm works on, i.e. AFTER its
 /// `as f32` conversion: a finite f64 beyond f32 range (1e39) becomes an infinity and is outside it –
-/// not generated. The legal side: magnitudes up to 3e38.
+/// not generated. The legal side: magnitudes up to 3.3e38.
 fn gen_f32_corner_points(r: &mut Rng, n: usize, d: usize, extreme: bool) -> Vec<f64> {
     if extreme {
-        let scale = *r.pick(&[1e30f64, 1e37, 3e38]);
+        let scale = *r.pick(&[1e30f64, 1e37, 1.6e38, 3.3e38]);
         (0..n * d).map(|_| nz(unif(r, -1.0, 1.0) * scale)).collect()
     } else {
         let m = 2 + r.usize(5);
